@@ -239,4 +239,203 @@ theorem cpl_value (c : Bool) : ∀ n, CplValue c n
       simp only [printValue, printObjFields_eq, toList_ofList]
       rw [flatMap_forall₂ (P := fun (y : Name × Value × Pos) => tName y.1 :: tP .colon :: printValue y.2.1) (g := fun (p : List Tok × List Tok) => p.2) hy]
 
+/-! ### arguments and directives -/
+
+theorem inv_argument {c : Bool} {ts o : List Tok} (h : D (.nt (.argument c)) ts o) (hok : TsOK ts) :
+    ∃ n tv ov, ts = tName n :: tP .colon :: tv ∧ o = tName n :: tP .colon :: ov ∧ D (.nt (.value c)) tv ov := by
+  obtain ⟨t1, t2, o1, o2, rfl, rfl, d1, d2⟩ := h.nt_inv.seq_inv'
+  obtain ⟨t3, t4, o3, o4, rfl, rfl, d3, d4⟩ := d2.seq_inv'
+  obtain ⟨n, rfl, rfl⟩ := name_inv d1
+  obtain ⟨rfl, rfl⟩ := punct_inv d3 hok.right.left rfl
+  exact ⟨n, t4, o4, rfl, rfl, d4⟩
+
+/-- a bracketed non-empty list `start item+ stop`, or nothing -/
+def OptBlockShape (start stop : Kind) (item : Sym NT) (ts o : List Tok) : Prop :=
+  (ts = [] ∧ o = []) ∨ ∃ parts : List (List Tok × List Tok), parts ≠ [] ∧
+    ts = tP start :: parts.flatMap (·.1) ++ [tP stop] ∧ o = tP start :: parts.flatMap (·.2) ++ [tP stop] ∧
+    ∀ p ∈ parts, D item p.1 p.2
+
+theorem inv_block {start stop : Kind} {item : Sym NT} {ts o : List Tok}
+    (h : D (.seq (Grammar.kind start) (.seq (.plus item) (Grammar.kind stop))) ts o) (hok : TsOK ts)
+    (h1 : start.valued = false) (h2 : stop.valued = false) :
+    ∃ parts : List (List Tok × List Tok), parts ≠ [] ∧
+      ts = tP start :: parts.flatMap (·.1) ++ [tP stop] ∧ o = tP start :: parts.flatMap (·.2) ++ [tP stop] ∧
+      ∀ p ∈ parts, D item p.1 p.2 := by
+  obtain ⟨t1, t2, o1, o2, rfl, rfl, d1, d2⟩ := h.seq_inv'
+  obtain ⟨t3, t4, o3, o4, rfl, rfl, d3, d4⟩ := d2.seq_inv'
+  obtain ⟨rfl, rfl⟩ := punct_inv d1 hok.left h1
+  obtain ⟨rfl, rfl⟩ := punct_inv d4 hok.right.right h2
+  obtain ⟨parts, hne, rfl, rfl, hp⟩ := d3.plus_parts
+  exact ⟨parts, hne, by simp, by simp, hp⟩
+
+theorem inv_optArguments {c : Bool} {ts o : List Tok} (h : D (.opt (.nt (.arguments c))) ts o) (hok : TsOK ts) :
+    OptBlockShape .parenL .parenR (.nt (.argument c)) ts o := by
+  rcases h.opt_inv with h | h
+  · exact .inl h
+  · exact .inr (inv_block h.nt_inv hok rfl rfl)
+
+theorem printArguments_cons {as : List Argument} (h : as ≠ []) :
+    printArguments as = tP .parenL :: as.flatMap printArgument ++ [tP .parenR] := by
+  cases as with
+  | nil => exact absurd rfl h
+  | cons x r => simp [printArguments]
+
+theorem all₂_ne {α ι : Type} {R : α → ι → Prop} {ys : List α} {xs : List ι} (h : All₂ R ys xs) (hne : xs ≠ []) : ys ≠ [] := by
+  cases h with
+  | nil => exact absurd rfl hne
+  | cons _ _ => simp
+
+theorem cpl_argument (c : Bool) (n : Nat) (ts o : List Tok) (hok : TsOK ts) (hd : D (.nt (.argument c)) ts o) (a : AS) (σ1 : Stream)
+    (hs : Starts a.σ ts σ1) : Fwd (parseArgument n c) a (fun y a' => printArgument y = o ∧ a'.σ = σ1) := by
+  obtain ⟨nm, tv, ov, rfl, rfl, dv⟩ := inv_argument hd hok
+  obtain ⟨σa, h1, hs⟩ := hs.cons_single
+  obtain ⟨σb, h2, h3⟩ := hs.cons_single
+  unfold parseArgument
+  refine Fwd.bind (fwd_peekPos _) ?_
+  rintro pos b1 rfl
+  refine Fwd.bind (fwd_parseName nm h1) ?_
+  rintro nm' b2 ⟨rfl, hσ2⟩
+  refine Fwd.bind (fwd_punct .colon (by rw [hσ2]; exact h2)) ?_
+  rintro _ b3 hσ3
+  refine Fwd.bind (cpl_value c n tv ov hok.tail.tail dv b3 σ1 (by rw [hσ3]; exact h3)) ?_
+  rintro v' b4 ⟨hv, hσ⟩
+  refine (Fwd.pure _ _).mono ?_
+  rintro y b5 ⟨rfl, rfl⟩
+  exact ⟨by simp [printArgument, hv], hσ⟩
+
+/-- `Arguments[Const]?` -/
+theorem cpl_arguments (c : Bool) (n : Nat) (ts o : List Tok) (hok : TsOK ts) (hd : D (.opt (.nt (.arguments c))) ts o)
+    (a : AS) (σ' : Stream) (hs : Starts a.σ ts σ') (hfol : σ'.head.kind ≠ .parenL) :
+    Fwd (parseArguments n c) a (fun as a' => printArguments as = o ∧ a'.σ = σ') := by
+  unfold parseArguments
+  rcases inv_optArguments hd hok with ⟨rfl, rfl⟩ | ⟨parts, hne, rfl, rfl, hp⟩
+  · rw [Starts.nil_iff] at hs
+    refine (fwd_bracket_absent .parenL .parenR n a (by rw [hs]; exact hfol)).2.mono ?_
+    rintro ys a' ⟨rfl, hσ⟩
+    exact ⟨rfl, by rw [hσ, hs]⟩
+  · have hokp : ∀ p ∈ parts, TsOK p.1 := (hok.tail.left).of_flatMap
+    refine ((fwd_bracketG (·.1) (fun (y : Argument) (p : List Tok × List Tok) => printArgument y = p.2) (fun _ => True)
+      .parenL .parenR parts
+      (fun p hpm a0 σ1 hst _ => cpl_argument c n p.1 p.2 (hokp p hpm) (hp p hpm) a0 σ1 hst)
+      (fun p hpm => by
+        obtain ⟨nm, tv, ov, e1, _, _⟩ := inv_argument (hp p hpm) (hokp p hpm)
+        exact ⟨_, _, e1, by simp [tName]⟩)
+      (fun _ _ => trivial) n a σ' (tP .parenL) (tP .parenR) rfl rfl (by simpa using hs)).2 hne).mono ?_
+    rintro ys a' ⟨hy, hσ⟩
+    refine ⟨?_, hσ⟩
+    rw [printArguments_cons (all₂_ne hy hne), flatMap_forall₂ (P := printArgument) (g := fun (p : List Tok × List Tok) => p.2) hy]
+
+theorem inv_directive {c : Bool} {ts o : List Tok} (h : D (.nt (.directive c)) ts o) (hok : TsOK ts) :
+    ∃ nm ta oa, ts = tP .at :: tName nm :: ta ∧ o = tP .at :: tName nm :: oa ∧ D (.opt (.nt (.arguments c))) ta oa := by
+  obtain ⟨t1, t2, o1, o2, rfl, rfl, d1, d2⟩ := h.nt_inv.seq_inv'
+  obtain ⟨t3, t4, o3, o4, rfl, rfl, d3, d4⟩ := d2.seq_inv'
+  obtain ⟨rfl, rfl⟩ := punct_inv d1 hok.left rfl
+  obtain ⟨nm, rfl, rfl⟩ := name_inv d3
+  exact ⟨nm, t4, o4, rfl, rfl, d4⟩
+
+theorem cpl_directive (c : Bool) (n : Nat) (ts o : List Tok) (hok : TsOK ts) (hd : D (.nt (.directive c)) ts o) (a : AS)
+    (σ' : Stream) (hs : Starts a.σ ts σ') (hfol : σ'.head.kind ≠ .parenL) :
+    Fwd (parseDirective n c) a (fun y a' => printDirective y = o ∧ a'.σ = σ') := by
+  obtain ⟨nm, ta, oa, rfl, rfl, da⟩ := inv_directive hd hok
+  obtain ⟨σa, h1, hs⟩ := hs.cons_single
+  obtain ⟨σb, h2, h3⟩ := hs.cons_single
+  unfold parseDirective
+  refine Fwd.bind (fwd_punct .at h1) ?_
+  rintro _ b1 hσ1
+  refine Fwd.bind (fwd_peekPos _) ?_
+  rintro pos b2 rfl
+  refine Fwd.bind (fwd_parseName nm (by simpa [hσ1] using h2)) ?_
+  rintro nm' b3 ⟨rfl, hσ3⟩
+  refine Fwd.bind (cpl_arguments c n ta oa hok.tail.tail da b3 σ' (by rw [hσ3]; exact h3) hfol) ?_
+  rintro as' b4 ⟨has, hσ⟩
+  refine (Fwd.pure _ _).mono ?_
+  rintro y b5 ⟨rfl, rfl⟩
+  exact ⟨by simp [printDirective, has], hσ⟩
+
+/-- the iterations of `Directives[Const]?` -/
+theorem inv_optDirectives {c : Bool} {ts o : List Tok} (h : D (.opt (.nt (.directives c))) ts o) :
+    ∃ parts : List (List Tok × List Tok), ts = parts.flatMap (·.1) ∧ o = parts.flatMap (·.2) ∧
+      ∀ p ∈ parts, D (.nt (.directive c)) p.1 p.2 := by
+  rcases h.opt_inv with ⟨rfl, rfl⟩ | h
+  · exact ⟨[], rfl, rfl, fun _ h => by cases h⟩
+  · obtain ⟨parts, _, e1, e2, hp⟩ := h.nt_inv.plus_parts
+    exact ⟨parts, e1, e2, hp⟩
+
+theorem first_directive {c : Bool} {ts o : List Tok} (h : D (.nt (.directive c)) ts o) (hok : TsOK ts) :
+    ∃ rest, ts = tP .at :: rest := by
+  obtain ⟨nm, ta, oa, e, _, _⟩ := inv_directive h hok
+  exact ⟨_, e⟩
+
+/-- the first token of `Directives?`: none, or `@` -/
+theorem firstKind_optDirectives {c : Bool} {ts o : List Tok} (h : D (.opt (.nt (.directives c))) ts o) (hok : TsOK ts) (k : Kind) :
+    firstKind ts k = k ∨ firstKind ts k = .at := by
+  obtain ⟨parts, rfl, _, hp⟩ := inv_optDirectives h
+  cases parts with
+  | nil => exact .inl rfl
+  | cons p r =>
+    obtain ⟨rest, e⟩ := first_directive (hp p (by simp)) (hok.of_flatMap p (by simp))
+    right
+    simp [List.flatMap_cons, e, tP]
+
+theorem cpl_directivesLoop (c : Bool) (m : Nat) : ∀ (parts : List (List Tok × List Tok)),
+    (∀ p ∈ parts, TsOK p.1 ∧ D (.nt (.directive c)) p.1 p.2) →
+    ∀ (n : Nat) (acc : List Directive) (a : AS) (σ' : Stream), Starts a.σ (parts.flatMap (·.1)) σ' →
+      σ'.head.kind ≠ .at → σ'.head.kind ≠ .parenL →
+      Fwd (directivesLoop (parseDirective m c) n acc) a
+        (fun ys a' => (∃ zs, ys = zs.reverse ++ acc ∧ printDirectives zs = parts.flatMap (·.2)) ∧ a'.σ = σ')
+  | [], _ => by
+    intro n acc a σ' hs h1 _
+    rw [List.flatMap_nil, Starts.nil_iff] at hs
+    cases n with
+    | zero => exact Fwd.outOfFuel _ _ _
+    | succ n =>
+      unfold directivesLoop
+      refine Fwd.bind (fwd_peek a) ?_
+      rintro t a1 ⟨rfl, rfl⟩
+      refine Fwd.ite_neg (by rw [hs]; exact h1) ((Fwd.pure _ _).mono ?_)
+      rintro ys a' ⟨rfl, rfl⟩
+      exact ⟨⟨[], by simp, rfl⟩, hs⟩
+  | p :: parts, hp => by
+    intro n acc a σ' hs h1 h2
+    rw [List.flatMap_cons, Starts.append_iff] at hs
+    obtain ⟨σm, hd, hrest⟩ := hs
+    obtain ⟨hokp, hdp⟩ := hp p (by simp)
+    obtain ⟨rest, e⟩ := first_directive hdp hokp
+    cases n with
+    | zero => exact Fwd.outOfFuel _ _ _
+    | succ n =>
+      unfold directivesLoop
+      refine Fwd.bind (fwd_peek a) ?_
+      rintro t a1 ⟨rfl, rfl⟩
+      have hk : a.σ.head.kind = .at := by rw [e] at hd; exact hd.head_kind
+      refine Fwd.ite_pos hk (Fwd.bind (fwd_hasErr _) ?_)
+      rintro e' a2 ⟨rfl, rfl⟩
+      have hm : σm.head.kind ≠ .parenL := by
+        cases parts with
+        | nil =>
+          rw [List.flatMap_nil, Starts.nil_iff] at hrest
+          rw [hrest]; exact h2
+        | cons p2 r =>
+          obtain ⟨rest2, e2⟩ := first_directive (hp p2 (by simp)).2 (hp p2 (by simp)).1
+          rw [List.flatMap_cons, e2, List.cons_append] at hrest
+          rw [hrest.head_kind]; simp [tP]
+      refine Fwd.ite_neg (by simp) (Fwd.bind (cpl_directive c m p.1 p.2 hokp hdp _ σm hd hm) ?_)
+      rintro y a3 ⟨hy, hσ3⟩
+      refine (cpl_directivesLoop c m parts (fun q hq => hp q (by simp [hq])) n (y :: acc) a3 σ'
+        (by rw [hσ3]; exact hrest) h1 h2).mono ?_
+      rintro ys a' ⟨⟨zs, e1, e2⟩, e3⟩
+      exact ⟨⟨y :: zs, by rw [e1]; simp, by simp [printDirectives, hy, ← e2]⟩, e3⟩
+
+/-- `Directives[Const]?` -/
+theorem cpl_directives (c : Bool) (n : Nat) (ts o : List Tok) (hok : TsOK ts) (hd : D (.opt (.nt (.directives c))) ts o)
+    (a : AS) (σ' : Stream) (hs : Starts a.σ ts σ') (h1 : σ'.head.kind ≠ .at) (h2 : σ'.head.kind ≠ .parenL) :
+    Fwd (parseDirectives n c) a (fun ds a' => printDirectives ds = o ∧ a'.σ = σ') := by
+  obtain ⟨parts, rfl, rfl, hp⟩ := inv_optDirectives hd
+  unfold parseDirectives
+  refine Fwd.bind (cpl_directivesLoop c n parts (fun p hpm => ⟨hok.of_flatMap p hpm, hp p hpm⟩) n [] a σ' hs h1 h2) ?_
+  rintro ys a1 ⟨⟨zs, rfl, hz⟩, hσ⟩
+  refine (Fwd.pure _ _).mono ?_
+  rintro ws a' ⟨rfl, rfl⟩
+  exact ⟨by simpa using hz, hσ⟩
+
 end Gql.Parser
